@@ -18,7 +18,9 @@ EXPLANATION = (
     "source before copy_from_slice, and every element store arr[idx] is preceded on every path by idx < len "
     "or a resize to more than idx. PARTS: from_parts/into_parts are pure field moves. WRITER: on every path of "
     "to_bytes the copies from fields of self tile the output buffer (first piece at offset 0, each constant end "
-    "is the next start, exactly the last piece open-ended, no field written twice).")
+    "is the next start, exactly the last piece open-ended, no field written twice). STRUCT-SER: every struct "
+    "serializer emits every field on every path (each serialize_field dominates `end`, no skip_field, the announced "
+    "count equals the number of fields written): the derived deserializers read sequence formats positionally.")
 NOT_DECIDED = ("equality of the decoded object with the encoded one; serde_json/bincode format specifics; that decoded "
                "objects still decrypt/verify.")
 
@@ -32,6 +34,7 @@ def run(ctx, rep):
     fixed(rep, prog)
     sized(rep, prog)
     parts(rep, prog)
+    struct_ser(rep, prog)
 
 
 def framing(rep, prog):
@@ -390,6 +393,40 @@ def sized(rep, prog):
                    "the container is grown beyond the elements read (%s) and an Ok exit is reachable without trimming it to the element counter" % [c.loc() for c in loose][:2],
                    loc=f.loc(bad[0]) if bad else f0.loc())
     rep.floor("slice constructors / element stores", n, 4)
+
+
+def struct_ser(rep, prog):
+    """STRUCT-SER: every struct serializer (an impl of serde's Serialize that opens `serialize_struct`) emits every
+    field on every path: each `serialize_field` call dominates the closing `end`, there is no `skip_field`, and
+    when the announced field count is a constant it equals the number of `serialize_field` calls.  The derived
+    deserializers read the fields positionally from sequence formats (bincode), so a field that is left out
+    for some values (`skip_serializing_if`) round-trips through JSON and not through a sequence format."""
+    n = 0
+    last = lambda c: (c.rpath or c.path).split("::")[-1]
+    for f in sorted(prog.fns, key=lambda f: f.path):
+        if f.kind == "closure" or f.name != "serialize" or "Serialize for " not in f.path or "Deserialize" in f.path:
+            continue
+        live = [c for c in f.calls() if not f.blocks[c.bb]["cleanup"]]
+        opens = [c for c in live if last(c) == "serialize_struct"]
+        if not opens:
+            continue
+        n += 1
+        fields = [c for c in live if last(c) == "serialize_field"]
+        skips = [c for c in live if last(c) == "skip_field"]
+        ends = [c for c in live if last(c) == "end"]
+        nm = f.path.split("Serialize for ")[-1].split(">::serialize")[0][:60]
+        ok = bool(ends) and not skips and all(all(c.bb in f.dom.get(e.bb, ()) for e in ends) for c in fields)
+        rep.ob("STRUCT-SER", "%s|every field on every path" % nm, ok,
+               "%d serialize_field call(s), %d skip_field, %d end; every serialize_field dominates end: %s" % (
+                   len(fields), len(skips), len(ends), ok), loc=f.loc())
+        try:
+            cnt = evaluate(call_arg_exprs(opens[0])[2], {})
+        except Exception:
+            cnt = None
+        if isinstance(cnt, int) and not isinstance(cnt, bool):
+            rep.ob("STRUCT-SER", "%s|announced field count" % nm, cnt == len(fields),
+                   "serialize_struct announces %d field(s), %d serialize_field call(s)" % (cnt, len(fields)), loc=opens[0].loc())
+    rep.floor("struct serializers", n, 9)
 
 
 def parts(rep, prog):
